@@ -154,10 +154,10 @@ def step (s : SState) : Cmd → SState
     if tail.all (· < s.nclasses) then addClass s tail false Layer.empty else s
   | .usingProps p init =>
     if p < s.nclasses then addClass s (s.mro p) true (layerOfPairs init) else s
-  | .usingShared p owner =>
-    -- a fresh mapping that starts as a copy of what `owner`'s own layer holds
+  | .usingShared p owner init =>
+    -- a fresh mapping that starts as a copy of the initial mapping the Properties object was built with
     if p < s.nclasses ∧ s.fresh owner ∧ owner < s.nclasses then
-      addClass s (s.mro p) true (s.layer owner) else s
+      addClass s (s.mro p) true (layerOfPairs init) else s
   | .withProps p pairs =>
     if p < s.nclasses then addClass s (s.mro p) false (layerOfPairs pairs) else s
   | .newInst c =>
